@@ -312,3 +312,85 @@ func mentionsChunk(v ssa.Value) bool {
 	}
 	return false
 }
+
+// checkReleaseAfterAcquire: for every call of acquire in fn whose boolean result decides an If, every CFG path
+// from the success edge to a Return passes an instruction satisfying release (call or defer). Decided as SMT
+// reachability over the CFG with release-blocks removed. Unknown shapes (result not branched on) are inconclusive.
+func checkReleaseAfterAcquire(prog *ssa.Program, fnName string, acquire, release func(ssa.Instruction) bool, ev map[string]interface{}, key string) (ok bool, inconclusive string, witness string) {
+	fn := findFuncByString(prog, fnName)
+	if fn == nil || fn.Blocks == nil {
+		return false, "function " + fnName + " not found", ""
+	}
+	has := func(b *ssa.BasicBlock, p func(ssa.Instruction) bool) bool {
+		for _, ins := range b.Instrs {
+			if p(ins) {
+				return true
+			}
+		}
+		return false
+	}
+	start := map[int]bool{}
+	acquires := 0
+	for _, b := range fn.Blocks {
+		for _, ins := range b.Instrs {
+			c, isCall := ins.(*ssa.Call)
+			if !isCall || !acquire(ins) {
+				continue
+			}
+			acquires++
+			found := false
+			for _, ref := range *c.Referrers() {
+				iff, isIf := ref.(*ssa.If)
+				if !isIf || iff.Cond != ssa.Value(c) {
+					continue
+				}
+				found = true
+				start[iff.Block().Succs[0].Index] = true
+			}
+			if !found {
+				return false, "result of Acquire in " + fnName + " is not branched on directly", ""
+			}
+		}
+	}
+	if acquires == 0 {
+		return false, "no Acquire call in " + fnName, ""
+	}
+	isRel := map[int]bool{}
+	for _, b := range fn.Blocks {
+		if has(b, release) {
+			isRel[b.Index] = true
+		}
+	}
+	var sb strings.Builder
+	sb.WriteString("(set-logic ALL)\n")
+	for _, b := range fn.Blocks {
+		fmt.Fprintf(&sb, "(declare-const r%d Bool)\n(declare-const l%d Int)\n", b.Index, b.Index)
+	}
+	var ts []string
+	for _, b := range fn.Blocks {
+		var alts []string
+		if start[b.Index] {
+			alts = append(alts, fmt.Sprintf("(= l%d 0)", b.Index))
+		}
+		for _, p := range b.Preds {
+			if isRel[p.Index] {
+				continue
+			}
+			alts = append(alts, fmt.Sprintf("(and r%d (< l%d l%d))", p.Index, p.Index, b.Index))
+		}
+		fmt.Fprintf(&sb, "(assert (=> r%d (or %s false)))\n(assert (>= l%d 0))\n", b.Index, strings.Join(alts, " "), b.Index)
+		if !isRel[b.Index] && has(b, func(i ssa.Instruction) bool { _, r := i.(*ssa.Return); return r }) {
+			ts = append(ts, fmt.Sprintf("r%d", b.Index))
+		}
+	}
+	fmt.Fprintf(&sb, "(assert (or %s false))\n(check-sat)\n", strings.Join(ts, " "))
+	res := runOneShot("z3-new", sb.String(), 30000)
+	ev[key] = map[string]interface{}{"blocks": len(fn.Blocks), "acquire_calls": acquires, "success_edges": len(start), "release_blocks": len(isRel), "return_blocks_without_release": len(ts), "result": res}
+	switch res {
+	case "unsat":
+		return true, "", ""
+	case "sat":
+		return false, "", fmt.Sprintf("%s: a path from the success edge of Acquire reaches a return without calling or deferring Release", fnName)
+	}
+	return false, "solver " + res + " on release-after-acquire query of " + fnName, ""
+}
